@@ -9,7 +9,7 @@ Quantifier: all index directories and all assigned sets, over repeated cleanups.
 
 Model: C32/Model.lean (cleanup.go's six phases over abstract directory states).  Lemmas: C32/Lemmas, C32/Phases.
 -/
-import ZoektModel.C32.Purge
+import ZoektModel.C32.Restore
 namespace ZoektModel.C32
 
 theorem cleanup_removes_tmps (d : Dir) (a : List Nat) (now : Int) (m : Bool) : (cleanup d a now m).tmps = 0 := by
@@ -207,6 +207,126 @@ theorem trash_purge_rule_phase1 (d : Dir) (now : Int) (H2 : TrashNamesUnique d) 
       rw [aliveIn_iff]
       exact ⟨r, hr, by rw [← hk]; rfl, htomb⟩
 
+/-- **assigned_restored** (partial): an assigned repository that is not in the index and whose trashed shards are all
+    younger than 24 h gets its trashed shard `f` back into the index directory, alive.  Hypotheses: `f` is a simple
+    shard holding just that repository; the assigned list has no duplicates (a second restore of the same id would
+    delete what the first restored); the trash listing has no duplicates and distinct file names; and no index file
+    carries `f`'s name (otherwise the known findings C32-restore-overwrites-same-basename /
+    C32-restored-then-trashed-same-basename apply). -/
+theorem assigned_restored_partial (d : Dir) (A : List Nat) (now : Int) (m : Bool) (r : Nat) (f : File) (x : Repo)
+    (hf : f ∈ d.trash) (hfs : f.compound = false) (hrepos : f.repos = [x]) (hxid : x.id = r) (hxt : x.tomb = false)
+    (hr : r ∈ A) (hnd : A.Nodup) (htn : d.trash.Nodup) (H2 : TrashNamesUnique d)
+    (hni : searchable d.index r = false) (hnold : oldInTrash d now r = false)
+    (hdisj : ∀ g ∈ d.index, sameBase g f.compound f.key = false) :
+    keptIn (cleanup d A now m).index f r = true := by
+  have halive : aliveIn f r = true := by rw [aliveIn_iff, hrepos]; exact ⟨x, by simp, hxid, hxt⟩
+  have honly : ∀ id, aliveIn f id = true → id = r := by
+    intro id hid
+    rw [aliveIn_iff, hrepos] at hid
+    obtain ⟨y, hy, h1, _⟩ := hid
+    simp only [List.mem_singleton] at hy
+    rw [← h1, hy, hxid]
+  -- a trash shard named like f belongs to r
+  have hownT : ∀ e ∈ getShards d.trash true, ∀ s ∈ e.2, ¬ Off f s → e.1 = r := by
+    intro e he s hs hoff
+    obtain ⟨_, _, g, hg, hb, ha⟩ := getShards_sound d.trash true e he s hs
+    have hoff' : s.compound = f.compound ∧ s.key = f.key := Classical.not_not.mp hoff
+    rw [sameBase_iff] at hb
+    have : g = f := H2 g hg f hf (hb.1.trans hoff'.1) (hb.2.trans hoff'.2)
+    rw [this] at ha; exact honly _ ha
+  -- the entry of r in the trash map, with exactly one shard named like f
+  obtain ⟨e, he, hek, s, hs, hsc, hsk, _⟩ := getShards_complete d.trash true r f.compound f.key ⟨f, hf, by simp [sameBase], halive⟩
+  have hex : ∃ s ∈ e.2, atF f s = true := ⟨s, hs, by simp [atF, hsc, hsk]⟩
+  have hcnt : e.2.countP (atF f) ≤ 1 := by
+    have h1 := countP_le_cntF f _ e he
+    rw [cntF_getShards] at h1
+    have h2 := WF_unique f d.trash htn (fun g hg hb => by
+      rw [sameBase_iff] at hb; exact H2 g hg f hf hb.1 hb.2)
+    have h3 : wF f f = 1 := by simp [wF, sameBase, hrepos, hxt]
+    omega
+  -- no entry of r is purged in phase 1
+  have hnopurge : ∀ e' ∈ getShards d.trash true, e'.1 = e.1 → purgeable now (getShards d.index false) e' = false := by
+    intro e' he' hk
+    rw [hek] at hk
+    cases hp : purgeable now (getShards d.index false) e'
+    · rfl
+    exfalso
+    simp only [purgeable, Bool.or_eq_true] at hp
+    rcases hp with hidx | hold
+    · simp only [mapHas, List.any_eq_true, beq_iff_eq] at hidx
+      obtain ⟨e'', he'', hk''⟩ := hidx
+      have hne := getShards_entry_nonempty d.index false e'' he''
+      cases hl : e''.2 with
+      | nil => exact hne hl
+      | cons s' rest =>
+        obtain ⟨_, _, g', hg', _, ha'⟩ := getShards_sound d.index false e'' he'' s' (by rw [hl]; simp)
+        have : searchable d.index r = true := by
+          simp only [searchable, List.any_eq_true]; exact ⟨g', hg', by rw [← hk, ← hk'']; exact ha'⟩
+        rw [hni] at this; cases this
+    · simp only [List.any_eq_true, decide_eq_true_eq] at hold
+      obtain ⟨s', hs', hlt⟩ := hold
+      have hkd := (getShards_spec d.trash true).1 e' he' s' hs'
+      obtain ⟨f', hf', r', hr', htomb, rfl⟩ := (getShards_spec d.trash true).2.2 e' he' s' hs'
+      have : oldInTrash d now r = true := by
+        simp only [oldInTrash, List.any_eq_true, Bool.and_eq_true, decide_eq_true_eq]
+        refine ⟨f', hf', ?_, hlt⟩
+        rw [aliveIn_iff]; exact ⟨r', hr', by rw [← hk, ← hkd]; rfl, htomb⟩
+      rw [hnold] at this; cases this
+  have e0 : (cleanup d A now m).index =
+      (phase5 now m
+        (phase4 A (phase1 now (getShards d.index false) (getShards d.trash true) d).2
+          (phase2 (getShards d.index false) (phase1 now (getShards d.index false) (getShards d.trash true) d).2 (getTombs d.index))
+          (phase3 m (getShards d.index false) (phase1 now (getShards d.index false) (getShards d.trash true) d).1).1
+          (phase3 m (getShards d.index false) (phase1 now (getShards d.index false) (getShards d.trash true) d).1).2).2
+        (phase4 A (phase1 now (getShards d.index false) (getShards d.trash true) d).2
+          (phase2 (getShards d.index false) (phase1 now (getShards d.index false) (getShards d.trash true) d).2 (getTombs d.index))
+          (phase3 m (getShards d.index false) (phase1 now (getShards d.index false) (getShards d.trash true) d).1).1
+          (phase3 m (getShards d.index false) (phase1 now (getShards d.index false) (getShards d.trash true) d).1).2).1).index := rfl
+  rw [e0]
+  -- phase 1
+  have pm := phase1_map now (getShards d.index false) (getShards d.trash true) d
+  have pu := namesUnique_phase1 now (getShards d.index false) (getShards d.trash true) d (fun a ha b hb => H2 a ha b hb)
+  have pk : TKept f (phase1 now (getShards d.index false) (getShards d.trash true) d).1.trash := by
+    rcases tkept_phase1 (f := f) now (getShards d.index false) (getShards d.trash true) d ⟨f, hf, by simp [sameBase], rfl⟩ with h | h
+    · exact h
+    · exfalso
+      obtain ⟨e', he', hwhy, s', hs', hoff⟩ := h
+      have hk' := hownT e' he' s' hs' hoff
+      have := hnopurge e' he' (by rw [hk', hek])
+      simp only [purgeable, Bool.or_eq_false_iff] at this
+      rcases hwhy with h1 | h1
+      · rw [this.1] at h1; cases h1
+      · rw [this.2] at h1; cases h1
+  have hein := pm.2 e he hnopurge
+  have hks := keysSorted_sub (getShards_keysSorted d.trash true) pm.1
+  have p1 := phase1_facts now (getShards d.index false) (getShards d.trash true) d
+    (fun e he s hs => (getShards_sound d.trash true e he s hs).2.1)
+  generalize phase1 now (getShards d.index false) (getShards d.trash true) d = P1 at pm pu pk hein hks p1 ⊢
+  have p3 := phase3_facts m (getShards d.index false) P1.1 (fun e he s hs => (getShards_sound d.index false e he s hs).2.1)
+  generalize phase3 m (getShards d.index false) P1.1 = P3 at p3 ⊢
+  -- phase 4
+  have hget : mapGet P1.2 r = some e.2 := by rw [← hek]; exact mapGet_of_mem hks e hein
+  have k4 := phase4_restores (f := f) hfs A r hr hnd P1.2 (phase2 (getShards d.index false) P1.2 (getTombs d.index)) P3.1 P3.2 e.2
+    hget hcnt hex (by
+      intro id hid sh hg s' hs'
+      obtain ⟨e', he', h1, h2⟩ := mapGet_some_mem P1.2 id sh hg
+      intro hoff
+      have := hownT e' (pm.1.subset he') s' (by rw [h2]; exact hs') (fun h => h hoff)
+      exact hid (h1 ▸ this)) (by rw [p3.2.1]; exact pk) (by rw [p3.2.1]; exact pu)
+  have m4 := phase4_map_sub A P1.2 (phase2 (getShards d.index false) P1.2 (getTombs d.index)) P3.1 P3.2
+  generalize phase4 A P1.2 (phase2 (getShards d.index false) P1.2 (getTombs d.index)) P3.1 P3.2 = P4 at k4 m4 ⊢
+  -- phase 5: no index shard is named like f
+  have k5 := kept_phase5 (f := f) now m P4.2 P4.1 (by
+    intro e' he' s' hs' hoff
+    have h4 := (m4 e' he').1
+    rw [p3.2.2.2] at h4
+    obtain ⟨_, _, g, hg, hb, _⟩ := getShards_sound d.index false e' (List.mem_filter.mp h4).1 s' hs'
+    have := hdisj g hg
+    rw [← hoff.1, ← hoff.2, hb] at this; cases this) k4
+  obtain ⟨g, hg, hb, ha⟩ := k5
+  simp only [keptIn, List.any_eq_true]
+  exact ⟨g, hg, by simp [hb, ha r halive]⟩
+
 /-! ### the full statement is false on the model: a compound shard that still holds assigned repositories is deleted -/
 
 /-- DESIGN §8 / known finding C32-compound-shard-deleted-whole, shard merging off: compound {1,2,3}, assigned {1,2} -/
@@ -264,6 +384,13 @@ example : IndexNamesUnique exDir ∧
     have : id = 5 := by have h5 : 5 = id := by simpa [aliveIn] using hid
                         exact h5.symm
     subst this; decide
+
+/-- the hypotheses of `assigned_restored_partial` hold of the fresh trashed shard of repository 6 -/
+example : (⟨false, 60, 99990, [⟨6, 6, false, 0⟩]⟩ : File) ∈ exDir.trash ∧ [1, 3, 6, 7].Nodup ∧ exDir.trash.Nodup ∧
+    searchable exDir.index 6 = false ∧ oldInTrash exDir 100000 6 = false ∧
+    (∀ g ∈ exDir.index, sameBase g false 60 = false) ∧
+    keptIn (cleanup exDir [1, 3, 6, 7] 100000 true).index ⟨false, 60, 99990, [⟨6, 6, false, 0⟩]⟩ 6 = true := by
+  decide
 
 example : (cleanup exDir [1, 3, 6, 7] 100000 true) =
     ⟨[⟨false, 60, 99990, [⟨6, 6, false, 0⟩]⟩, ⟨true, 1, 100000, [⟨1, 1, false, 1⟩, ⟨2, 2, true, 2⟩, ⟨3, 3, false, 3⟩]⟩],
